@@ -9,6 +9,7 @@ package cmd
 // outcomes.  cobra's flag parsing and exit-status mapping are outside.
 
 import (
+	"encoding/json"
 	"errors"
 	"fmt"
 	"io/fs"
@@ -27,6 +28,16 @@ func init() {
 	vhRegister("vh_C20_record", vh_C20_record)
 	vhRegister("vh_C20_matchproducts", vh_C20_matchproducts)
 	vhRegister("vh_C20_loadkey", vh_C20_loadkey)
+	vhRegister("vh_C20_key", vh_C20_key)
+}
+
+// stub: fmt.Printf in package cmd — what the tool prints on standard output
+var vhOut string
+
+func vhPrintf(format string, a ...any) (int, error) {
+	s := fmt.Sprintf(format, a...)
+	vhOut += s
+	return len(s), nil
 }
 
 // ---- model metadata ---------------------------------------------------------------
@@ -89,9 +100,14 @@ func vhLoadKeyDefaults(k *intoto.Key, path string) error {
 	if id == "" {
 		return errors.New("vh: invalid key " + path)
 	}
-	*k = intoto.Key{KeyID: id, KeyType: "ed25519", KeyVal: intoto.KeyVal{Public: "pub-" + id, Certificate: vhCertOf[path]}}
+	*k = intoto.Key{KeyID: id, KeyType: "ed25519", KeyVal: intoto.KeyVal{Public: "pub-" + id, Certificate: vhCertOf[path], Private: vhPrivateOf[path]}}
+	if vhPrivateOf[path] != "" {
+		k.Scheme, k.KeyIDHashAlgorithms = "ed25519", []string{"sha256", "sha512"}
+	}
 	return nil
 }
+
+var vhPrivateOf = map[string]string{} // path -> private half handed out by the key loader
 
 var vhCertOf map[string]string
 
@@ -226,6 +242,7 @@ func vhReset() {
 	vhEv, vhLoadable, vhKeys, vhCertOf = nil, map[string]*vhCmdMeta{}, map[string]string{}, map[string]string{}
 	vhFileData, vhExists, vhExitCode, vhRunCall, vhAPIFails = map[string]string{}, map[string]bool{}, -1, nil, false
 	vhExpectKeyIDs, vhExpectPems = nil, nil
+	vhOut, vhPrivateOf = "", map[string]string{}
 }
 
 func vhHasEv(prefix string) bool {
@@ -436,6 +453,26 @@ func vh_C20_matchproducts(a []int) {
 	if a[0] > 0 {
 		vhMatchLists[a[0]-1] = []string{"some/file"}
 	}
+	wantOut := ""
+	if len(a) > 1 && a[1] == 1 {
+		// every list holds 0..2 names
+		labels := []string{"Only in products: ", "Not in products: ", "Hashes differ: "}
+		any := false
+		for i := 0; i < 3; i++ {
+			vhMatchLists[i] = nil
+			n := vChoice("listlen", 3)
+			for j := 0; j < n; j++ {
+				name := []string{"x/one", "y two"}[j]
+				vhMatchLists[i] = append(vhMatchLists[i], name)
+				wantOut += labels[i] + name + "\n"
+				any = true
+			}
+		}
+		a = []int{0}
+		if any {
+			a = []int{1}
+		}
+	}
 	vhAPIFails = vBool("api.fails")
 	var err error
 	func() {
@@ -456,6 +493,9 @@ func vh_C20_matchproducts(a []int) {
 	} else {
 		vAssert("C20.match-products-passes-its-flags", vhHasEv("match:thelink:P:sha256:E:S"))
 		vAssert("C20.match-products-exits-1-iff-any-difference", (vhExitCode == 1) == (a[0] != 0) && (a[0] != 0 || err == nil))
+		if wantOut != "" || a[0] == 0 {
+			vAssert("C20.match-products-prints-every-difference-under-its-heading", vhOut == wantOut)
+		}
 	}
 	vReach("C20.end")
 }
@@ -496,6 +536,46 @@ func vh_C20_loadkey(a []int) {
 			wantCert = "CERT-PEM"
 		}
 		vAssert("C20.signing-key-carries-the-certificate", key.KeyID == wantID && key.KeyVal.Certificate == wantCert)
+	}
+	vReach("C20.end")
+}
+
+// ---- key id / key layout ---------------------------------------------------------------
+
+// a = {command: 0 `key id`, 1 `key layout`; key file holds private material (0/1)}
+func vh_C20_key(a []int) {
+	vhReset()
+	loads := vBool("key.loads")
+	id := vConcStr(vPick("keyid", "aaaa000011", "bbbb000022"))
+	if loads {
+		vhKeys["the.key"] = id
+		if a[1] == 1 {
+			vhPrivateOf["the.key"] = "PRIVATE-HALF-SECRET"
+		}
+	}
+	var err error
+	if a[0] == 0 {
+		err = keyID(nil, []string{"the.key"})
+	} else {
+		err = keyLayout(nil, []string{"the.key"})
+	}
+	vObserve("key", err == nil, vhOut)
+	vAssert("C20.key-command-fails-iff-the-library-cannot-load-the-key", (err == nil) == loads)
+	vAssert("C20.key-command-loads-the-given-file", vhHasEv("loadkey:the.key"))
+	if err != nil {
+		vAssert("C20.key-command-prints-nothing-on-failure", vhOut == "")
+	} else if a[0] == 0 {
+		vAssert("C20.key-id-prints-the-library-key-id", vhOut == id+"\n")
+	} else {
+		vAssert("C20.key-layout-never-prints-private-material", !strings.Contains(vhOut, "PRIVATE-HALF-SECRET"))
+		pre := "\"" + id + "\": "
+		vAssert("C20.key-layout-is-keyid-colon-object", strings.HasPrefix(vhOut, pre))
+		if strings.HasPrefix(vhOut, pre) {
+			var back intoto.Key
+			derr := json.Unmarshal([]byte(vhOut[len(pre):]), &back)
+			vAssert("C20.key-layout-object-is-the-public-key", derr == nil && back.KeyID == id && back.KeyType == "ed25519" &&
+				back.KeyVal.Public == "pub-"+id && back.KeyVal.Private == "")
+		}
 	}
 	vReach("C20.end")
 }
